@@ -54,8 +54,8 @@ ASSUMPTIONS = [
     "foreign key values are changed only through relationships (no direct assignment of fk columns), "
     "primary keys are not changed (no _DetectKeySwitch / listonly states), no passive_deletes, no "
     "delete-orphan on many-to-one",
-    "the hypotheses wf/consistent/cyc_ok/managed of the theorems (decidable; evaluated on every case; all "
-    "four are expected to hold - and are checked to hold - on every case of the in-guard families)",
+    "the hypotheses wf/consistent/managed of the theorems (decidable; evaluated on every case; they are "
+    "expected to hold - and are checked to hold - on every case of the in-guard families)",
 ]
 ANCHORS = [
     ("lib/sqlalchemy/orm/unitofwork.py", "UOWTransaction._generate_actions"),
@@ -1073,8 +1073,7 @@ LEVEL_TEXT = (
     "witnesses that also fail on SQLite (known findings), two more defects are found by the oracle only."
 )
 LEVEL_NOTE = (
-    "partial. Guarded: the theorem assumes (decidable, checked per case) cyc_ok - three structural facts "
-    "about find_cycles on these tables that hold on every observed case but are not proved - and managed, "
+    "partial. Guarded: the theorem assumes (decidable, checked per case) managed, "
     "which excludes the two refuted regions (many-to-one holder updated while its target of ANOTHER mapper is "
     "deleted in the per-state regime; post_update column whose target row is deleted while the holder "
     "survives). Statement contents are a static function of the before/after database state (validated "
